@@ -333,6 +333,11 @@ func (g *globAnalysis) disciplinedPool(gl *ssa.Global) bool {
 				if !ok || c2.Common().StaticCallee() == nil || len(c2.Common().Args) == 0 || !isVal(c2.Common().Args[0]) {
 					return
 				}
+				// only the standard library's emptying methods are taken on trust; a module-defined Reset is as good as its
+				// author's memory of the type's fields
+				if g.p.InModule(c2.Common().StaticCallee()) {
+					return
+				}
 				switch c2.Common().StaticCallee().Name() {
 				case "Reset":
 					if reset == nil {
@@ -1483,6 +1488,45 @@ func structureObligations(w *World, p *Prog) []Ob {
 					}
 				}
 			case *ssa.Call:
+				// append onto a child list (or a prefix / alias of one) without storing the result back into the node:
+				// the extra elements land in the list's own backing array when it has room, or over its tail when the
+				// operand is a prefix — an explicit work stack that starts as `pending := n.children` does exactly that
+				if isBuiltinCall(x, "append") && len(x.Common().Args) > 0 {
+					seen := map[ssa.Value]bool{}
+					var aliases func(v ssa.Value, d int) bool
+					aliases = func(v ssa.Value, d int) bool {
+						if v == nil || seen[v] || d > 6 {
+							return false
+						}
+						seen[v] = true
+						if isChildrenLoad(v) {
+							return true
+						}
+						switch y := v.(type) {
+						case *ssa.Slice:
+							return aliases(y.X, d+1)
+						case *ssa.Phi:
+							for _, e := range y.Edges {
+								if aliases(e, d+1) {
+									return true
+								}
+							}
+						case *ssa.Call:
+							if isBuiltinCall(y, "append") && len(y.Common().Args) > 0 {
+								return aliases(y.Common().Args[0], d+1)
+							}
+						case *ssa.UnOp:
+							if r := resolve(y); r != ssa.Value(y) {
+								return aliases(r, d+1)
+							}
+						}
+						return false
+					}
+					if aliases(x.Common().Args[0], 0) {
+						bad = append(bad, "appends onto (an alias or prefix of) a node's child list at "+p.InstrPos(x)+" without that being the list's own growth")
+					}
+					return
+				}
 				callee := x.Common().StaticCallee()
 				if callee == nil {
 					return
